@@ -8,9 +8,11 @@ use crate::splines::spline::{
 };
 use std::cmp::PartialEq;
 
+use bincode::{deserialize, serialize};
 use numpy::{PyArray2, ToPyArray};
 use pyo3::exceptions::{PyTypeError, PyValueError};
 use pyo3::prelude::*;
+use pyo3::types::PyBytes;
 
 macro_rules! create_interface {
     ($name: ident, $type: ident) => {
@@ -398,6 +400,18 @@ macro_rules! create_interface {
                     Ok(v) => Ok(v),
                     Err(_) => Err(PyValueError::new_err("Failed to serialize `PPSpline` to JSON.")),
                 }
+            }
+
+            // Pickling
+            pub fn __setstate__(&mut self, state: Bound<'_, PyBytes>) -> PyResult<()> {
+                *self = deserialize(state.as_bytes()).unwrap();
+                Ok(())
+            }
+            pub fn __getstate__<'py>(&self, py: Python<'py>) -> PyResult<Bound<'py, PyBytes>> {
+                Ok(PyBytes::new(py, &serialize(&self).unwrap()))
+            }
+            pub fn __getnewargs__(&self) -> PyResult<(usize, Vec<f64>)> {
+                Ok((*self.inner.k(), self.inner.t().clone()))
             }
         }
     };
